@@ -135,8 +135,31 @@ def _special(ctx, pending):
         pending.append((case, impl, gens.request(case, impl)))
 
 
+def _caller_edits_helper_results(ctx):
+    """the public helper of the generators module hands out arrays that belong to the caller: for every cell of every small shape the
+    result is converted in place (to pixel coordinates, say) and dropped, BEFORE any generator runs in this check"""
+    import numpy as np
+    try:
+        from maze_dataset.generation.generators import get_neighbors_in_bounds
+    except Exception:
+        return
+    n = 0
+    for r in range(1, 9):
+        for c in range(1, 9):
+            for i in range(r):
+                for j in range(c):
+                    for cell, shape in ((np.array([i, j]), np.array([r, c])), ((i, j), (r, c))):
+                        try:
+                            nb = get_neighbors_in_bounds(cell, shape)
+                            if isinstance(nb, np.ndarray) and nb.size: nb *= 2; nb += 1; n += 1
+                        except Exception:
+                            pass
+    ctx.count("caller_edited_helper_results", n)
+
+
 def run(ctx):
     pending = []
+    _caller_edits_helper_results(ctx)
     n_rand = 400 if ctx.quick else 20000
     maxn = 8 if ctx.quick else 16
     for _ in range(n_rand):
